@@ -39,6 +39,11 @@ E1 = {
                                     OpKinds={"next", "foreach", "eforeach", "fold", "values", "idsvalues"}), C_INV, False),
     "counter_owner": ("Counter", cfg(C_BASE, Kind="vec", OwnerOps=2, Sizes={1, 4}, TakeSet={9, 1},
                                      OpKinds={"next", "chunk", "skip", "intoseq", "hasmore", "drop"}), C_INV, False),
+    # ownership of the elements of a consumed vector / array (slots, predicted destructor runs, buffer)
+    "counter_own_vec": ("Counter", cfg(C_BASE, Kind="vec", SrcLen=3, MaxOps=1, OwnerOps=1, Sizes={1, 2, 4}, TakeSet={9, 1},
+                                       OpKinds={"next", "chunk", "bnew", "bnext", "foreach", "intoseq", "drop"}), C_INV + ["Inv_OwnEnd"], False),
+    "counter_own_arr": ("Counter", cfg(C_BASE, Kind="array", SrcLen=2, MaxOps=2, OwnerOps=1, Sizes={1, 3}, TakeSet={9, 1},
+                                       OpKinds={"next", "chunk", "foreach", "intoseq", "drop"}), C_INV + ["Inv_OwnEnd"], False),
     "counter_3t": ("Counter", cfg(C_BASE, NT=3, MaxOps=1, OpKinds={"next", "nextid", "chunk", "skip", "len"}), C_INV, False),
     "counter_multi": ("Counter", cfg(C_BASE, NT=0, MaxOps=0, OwnerOps=6, Sizes={1, 2}, TakeSet={9},
                                      OpKinds={"next", "chunk", "clone", "len", "skip", "intoseq"}), C_INV, False),
@@ -61,6 +66,8 @@ E1 = {
 E1_THOROUGH = {
     "counter_pulls_2x3": ("Counter", cfg(C_BASE, MaxOps=3), C_INV, False),
     "counter_skipq_2x3": ("Counter", cfg(C_BASE, SrcLen=2, MaxOps=3, OpKinds={"next", "chunk", "skip", "len", "hasmore"}), C_INV, False),
+    "counter_own_vec_2x2": ("Counter", cfg(C_BASE, Kind="vec", SrcLen=3, MaxOps=2, OwnerOps=1, Sizes={1, 2, 4}, TakeSet={9, 1},
+                                           OpKinds={"next", "chunk", "bnew", "bnext", "foreach", "intoseq", "drop"}), C_INV + ["Inv_OwnEnd"], False),
     "counter_3t_2": ("Counter", cfg(C_BASE, NT=3, MaxOps=2, SrcLen=2, Sizes={1, 3}, OpKinds={"next", "chunk", "skip"}), C_INV, False),
     "ticket_pulls_2x3": ("Ticket", cfg(T_BASE, MaxOps=3, Sizes={1, 2}), T_INV, True),
     "ticket_skip_2x3": ("Ticket", cfg(T_BASE, MaxOps=3, Sizes={2}, OpKinds={"next", "chunk", "skip", "hasmore"}), T_INV, True),
@@ -103,9 +110,13 @@ def gen_counter(tier, seed, sid0):
     frac = 0.25 if tier == "quick" else 1.0
     reps = 1 if tier == "quick" else 3
     for i, hrec in enumerate(beh):
-        if frac < 1.0 and rng.random() > frac:
+        # behaviours in which a skip_to_end races with something are always replayed (on a slice-like and on
+        # another kind); of the others a seeded quarter in the quick tier
+        progs = hrec["prog"].values() if isinstance(hrec["prog"], dict) else hrec["prog"]
+        has_skip = any(o["k"] == "skip" for p in progs for o in p) and sum(1 for p in progs if p) >= 2
+        if not has_skip and frac < 1.0 and rng.random() > frac:
             continue
-        for r in range(reps):
+        for r in range(max(reps, 2) if has_skip else reps):
             kind = kinds[(i + r * 3) % len(kinds)]
             extra = {"tag": {"suite": "gen_counter", "beh": i}}
             if kind == "range":
